@@ -53,6 +53,7 @@ type Inv struct {
 	Pending  string // label of a draw that did not return (invalid data / inner failure)
 	Custom   int    // number of Custom function calls
 	trimmed  bool
+	Left     int // buffer streams, when Log.wantLeft: words not consumed when the invocation ended
 }
 
 func (v *Inv) phase() string {
@@ -161,6 +162,7 @@ type Log struct {
 	Invs       []*Inv
 	noExit     bool
 	keepAll    bool
+	wantLeft   bool
 	minimizing bool
 	// watchdog: a single Check that exceeds these budgets is cut off by making every further
 	// invocation skip at once; the scenario is then inconclusive (never held, never violated)
@@ -253,6 +255,9 @@ func (l *Log) prop(body func(x *X)) func(*rapid.T) {
 			if inv.Persist && !l.noExit {
 				ex := rapid.VerifStreamOf(t)
 				inv.Exit = &ex
+			}
+			if l.wantLeft && inv.Kind == "buffer" {
+				inv.Left = len(rapid.VerifStreamOf(t).Remaining)
 			}
 		}()
 		body(x)
